@@ -331,7 +331,22 @@ func TestRAC_C07(t *testing.T) {
 			runLightClient(res, h, mask, 0, false)
 		}
 	}
-	res.Rule = fmt.Sprintf("(+%d seeded random histories of up to 40 leaves / 2..5 blocks with 4 remember masks each) ", nr) + fmt.Sprintf("every history with <= %d leaves / <= %d blocks and, for each, every subset of added leaves to remember (bit s of the mask = remember the leaf of insertion slot s), from the empty cached proof; after every block: held set, parallel positions, canonical proof hashes (specForest.CanonProof) and acceptance by Verify. distinct = (history, remember mask) pairs", maxLeaves, maxBlocks)
+	// adversarial leaf values (see TestRAC_ADV): every history with <= 5 leaves / <= 3 blocks, every mask
+	for _, a := range advAssignments() {
+		racLeaf = a.leaf
+		enumHistories(5, 3, func(h racHistory) {
+			total := 0
+			for _, b := range h {
+				total += b.Adds
+			}
+			for mask := uint64(0); mask < (uint64(1) << uint(total)); mask++ {
+				n++
+				res.tagged("/leaf-values="+a.name, func(tmp *racResult) { runLightClient(tmp, h, mask, 0, false) })
+			}
+		})
+	}
+	racLeaf = specLeaf
+	res.Rule = fmt.Sprintf("(+%d seeded random histories of up to 40 leaves / 2..5 blocks with 4 remember masks each; + every history with <= 5 leaves / <= 3 blocks and every mask under the 4 adversarial value assignments of TestRAC_ADV) ", nr) + fmt.Sprintf("every history with <= %d leaves / <= %d blocks and, for each, every subset of added leaves to remember (bit s of the mask = remember the leaf of insertion slot s), from the empty cached proof; after every block: held set, parallel positions, canonical proof hashes (specForest.CanonProof) and acceptance by Verify. distinct = (history, remember mask) pairs", maxLeaves, maxBlocks)
 	res.Scope = fmt.Sprintf("client_runs=%d", n)
 	res.write(t)
 }
